@@ -112,6 +112,23 @@ J_parsereq(e) ==
               (IF e.outcome = "ok" THEN "out-of-limit-request-decoded" ELSE "ok")
          ELSE "ok"
 
+\* Beyond the listed properties (check E02, only with VERIF_EXTRA=1): a request whose quantity / count / value is
+\* outside the specification's limits is refused with the TYPED parse error of the parser's own framing, and that
+\* error encodes to the exception reply (code 03) addressed to the request - for the TCP AND the RTU parsers.
+Extra == IOEnv.VERIF_EXTRA = "1"
+J_parsereq_extra(e) ==
+    IF e.outcome # "err" THEN "ok"
+    ELSE LET d == DecodeByFraming(e.framing, e.frame) IN
+         IF ~d.ok \/ e.entry \notin ReqEntries(FrOf(e.framing), d.r.fc) \/ ~OutOfLimitReq(d.r) THEN "ok"
+         ELSE IF e.framing = "rtunocrc" /\ e.entry \in {"ParseRTURequest", "ParseRTURequestWithCRC"} THEN "ok"
+         ELSE IF e.framing = "tcp" THEN
+              (IF e.errType # "ErrorParseTCP" THEN "extra:out-of-limit-request-refused-without-the-typed-tcp-parse-error"
+               ELSE IF e.errPkt # ExcADU("tcp", d.tid, d.r.unit, d.r.fc, 3) THEN "extra:parse-error-does-not-encode-to-exception-03-addressed-to-the-request"
+               ELSE "ok")
+         ELSE (IF e.errType # "ErrorParseRTU" THEN "extra:out-of-limit-request-refused-without-the-typed-rtu-parse-error"
+               ELSE IF e.errPkt # ExcADU("rtu", 0, d.r.unit, d.r.fc, 3) THEN "extra:parse-error-does-not-encode-to-exception-03-addressed-to-the-request"
+               ELSE "ok")
+
 \* range event: every value from..to of the 16-bit field at 0-based offset `off' was refused
 SetField(f, off, q) == [f EXCEPT ![off + 1] = q \div 256, ![off + 2] = q % 256]
 Refix(fr, f) == IF fr = "rtu" THEN WithCRC(SubSeq(f, 1, Len(f) - 2)) ELSE f
@@ -255,7 +272,7 @@ Judge(e) ==
       [] e.op = "newreq_rejected"   -> "ok"
       [] e.op = "explen"            -> J_explen(e)
       [] e.op = "parseresp"         -> J_parseresp(e)
-      [] e.op = "parsereq"          -> J_parsereq(e)
+      [] e.op = "parsereq"          -> LET v == J_parsereq(e) IN IF v = "ok" /\ Extra THEN J_parsereq_extra(e) ELSE v
       [] e.op = "parsereq_errrange" -> J_errrange(e)
       [] e.op = "parseany"          -> J_parseany(e)
       [] e.op = "fuzz_done"         -> "ok"
